@@ -7,11 +7,10 @@ import GarbleVerif.Proofs.BitMain
 
 * Booleans and integers of every width: literals, variables, `!`, unary `-`, `+`, `-`, `*`, `/`, `%`, `<<`, `>>`,
   `<`, `>`, `<=`, `>=`, `==`, `!=`, `&`, `|`, `^`, `&&`, `||`, `as` between all these types;
-* tuples, structs and arrays, nested to any depth: tuple and struct literals, `t.i`, `s.f`, array literals, `[e; n]`,
-  `lo..hi`, `a[i]` with its bounds check (values of enum types can be held in variables, passed and returned, but
-  not built or taken apart);
-* `if`/`else` as expression and as statement, `match` on Booleans, integers, tuples and structs with literal,
-  range, binding, tuple and struct patterns nested to any depth, whose arms cover the type (a last arm that binds
+* tuples, structs, enums and arrays, nested to any depth: tuple, struct and enum literals, `t.i`, `s.f`, array
+  literals, `[e; n]`, `lo..hi`, `a[i]` with its bounds check;
+* `if`/`else` as expression and as statement, `match` on Booleans, integers, tuples, structs and enums with
+  literal, range, binding, tuple, struct and enum patterns nested to any depth, whose arms cover the type (a last arm that binds
   or ignores the value, or any set of arms the verified reference procedure of C08 finds exhaustive), blocks;
 * `let` with an irrefutable pattern (a binding, tuples and structs of them, or any pattern the reference procedure
   finds exhaustive), `let mut x`, assignment to a variable and through any chain of `.i` / `.f` / `[i]` accessors
@@ -22,7 +21,7 @@ import GarbleVerif.Proofs.BitMain
 the wires of every variable in scope (the branches of an `if`, every arm of a `match` and the right operand of
 `&&` / `||` are compiled unconditionally and every variable is merged afterwards, `mux_envs`; an arm is selected
 by `!has_prev_match && is_match`, a range pattern by two comparator circuits, a tuple or struct pattern by the AND
-of its components' bits; a loop is unrolled). The operators
+of its components' bits, an enum pattern by comparing the tag; a loop is unrolled). The operators
 are the bit-list functions of Model/Arith.lean (tied to `CircuitBuilder` by C03/C04, proved exact in
 Proofs/Arith*.lean). One abstraction: `a[i]` and `a[i] = v` are modelled by what they select or replace (the
 element at the index, nothing when the index is out of bounds), not by their mux trees; the correspondence run
@@ -36,8 +35,8 @@ program level for the fragment, out-of-bounds accesses included). Both direction
 iff the source execution fails. `C01_core_defined`: the source semantics are never stuck on a program of the
 fragment (type soundness).
 
-**Explored (whole language).** Everything outside the fragment (multiplication by a negative literal, enum
-literals and patterns, `==` on aggregates, for-join loops, constants) is compared on generated programs on every run: circuit output against
+**Explored (whole language).** Everything outside the fragment (multiplication by a negative literal, `==` on
+aggregates, for-join loops and `join`, constants) is compared on generated programs on every run: circuit output against
 `Src.evalStmts`, and — for programs of the fragment — against `Bit.bitStmts` as well, which ties the model of
 this theorem to the code.
 -/
@@ -48,11 +47,11 @@ open Src
 /-- **C01 / C02 for the core fragment** (statement lists: function bodies) -/
 theorem C01_core (prog : Prog) (depth fuel : Nat) (env : Src.Env) (benv benv' : BEnv) (body : StmtList)
     (t : VTy) (bits : List Bool) (p : P)
-    (henv : EnvRel env benv) (hbits : bitStmts (callAt prog depth) benv body = some (t, bits, p, benv')) :
+    (henv : EnvRel env benv) (hbits : bitStmts ⟨callAt prog depth, prog.enum?⟩ benv body = some (t, bits, p, benv')) :
     (∀ v env', evalStmts fuel prog env body = .ok (v, env') →
         v.hasType t.toTy = true ∧ bits = v.encode t.toTy ∧ p = none ∧ EnvRel env' benv') ∧
     (∀ k, evalStmts fuel prog env body = .error (.panic k) → p = some k) := by
-  have h := (core_all prog (callAt prog depth) (callAt_sound prog depth) fuel).2.1 body env benv _ bits p benv' henv hbits
+  have h := (core_all prog ⟨callAt prog depth, prog.enum?⟩ (callAt_sound prog depth) fuel).2.1 body env benv _ bits p benv' henv hbits
   constructor
   · intro v env' hv
     rw [hv] at h
@@ -65,11 +64,11 @@ theorem C01_core (prog : Prog) (depth fuel : Nat) (env : Src.Env) (benv benv' : 
 /-- the same for expressions; assignments inside the expression are reflected in the variables -/
 theorem C01_core_expr (prog : Prog) (depth fuel : Nat) (env : Src.Env) (benv benv' : BEnv) (e : Expr)
     (t : VTy) (bits : List Bool) (p : P)
-    (henv : EnvRel env benv) (hbits : bitExpr (callAt prog depth) benv e = some (t, bits, p, benv')) :
+    (henv : EnvRel env benv) (hbits : bitExpr ⟨callAt prog depth, prog.enum?⟩ benv e = some (t, bits, p, benv')) :
     (∀ v env', evalExpr fuel prog env e = .ok (v, env') →
         v.hasType t.toTy = true ∧ bits = v.encode t.toTy ∧ p = none ∧ EnvRel env' benv') ∧
     (∀ k, evalExpr fuel prog env e = .error (.panic k) → p = some k) := by
-  have h := (core_all prog (callAt prog depth) (callAt_sound prog depth) fuel).1 e env benv _ bits p benv' henv hbits
+  have h := (core_all prog ⟨callAt prog depth, prog.enum?⟩ (callAt_sound prog depth) fuel).1 e env benv _ bits p benv' henv hbits
   constructor
   · intro v env' hv
     rw [hv] at h
@@ -83,10 +82,10 @@ theorem C01_core_expr (prog : Prog) (depth fuel : Nat) (env : Src.Env) (benv ben
 semantics — with enough fuel it returns a value of its type or fails with one of the three panics -/
 theorem C01_core_defined (prog : Prog) (depth fuel : Nat) (env : Src.Env) (benv benv' : BEnv) (body : StmtList)
     (t : VTy) (bits : List Bool) (p : P)
-    (henv : EnvRel env benv) (hbits : bitStmts (callAt prog depth) benv body = some (t, bits, p, benv')) :
+    (henv : EnvRel env benv) (hbits : bitStmts ⟨callAt prog depth, prog.enum?⟩ benv body = some (t, bits, p, benv')) :
     ∀ why, evalStmts fuel prog env body ≠ .error (.stuck why) := by
   intro why hw
-  have h := (core_all prog (callAt prog depth) (callAt_sound prog depth) fuel).2.1 body env benv _ bits p benv' henv hbits
+  have h := (core_all prog ⟨callAt prog depth, prog.enum?⟩ (callAt_sound prog depth) fuel).2.1 body env benv _ bits p benv' henv hbits
   rw [hw] at h
   exact h
 
@@ -94,10 +93,10 @@ theorem C01_core_defined (prog : Prog) (depth fuel : Nat) (env : Src.Env) (benv 
 
 /-- `x + 1u8` with `x = 255`: the source semantics fail with Overflow, and so does the bit-level
 evaluation; with `x = 7` both give 8 -/
-example : bitExpr (callAt ⟨[], []⟩ 0) [("x", .s (.int .u8), enc .u8 255)] (.bin .add (.int .u8) (.var "x") (.int 1 .u8)) =
+example : bitExpr ⟨callAt ⟨[], [], []⟩ 0, fun _ => none⟩ [("x", .s (.int .u8), enc .u8 255)] (.bin .add (.int .u8) (.var "x") (.int 1 .u8)) =
     some (.s (.int .u8), enc .u8 0, some .overflow, [("x", .s (.int .u8), enc .u8 255)]) := by rfl
 
-example : bitExpr (callAt ⟨[], []⟩ 0) [("x", .s (.int .u8), enc .u8 7)] (.bin .add (.int .u8) (.var "x") (.int 1 .u8)) =
+example : bitExpr ⟨callAt ⟨[], [], []⟩ 0, fun _ => none⟩ [("x", .s (.int .u8), enc .u8 7)] (.bin .add (.int .u8) (.var "x") (.int 1 .u8)) =
     some (.s (.int .u8), enc .u8 8, none, [("x", .s (.int .u8), enc .u8 7)]) := by rfl
 
 /-- `if c { x = 1u8; } else { }` followed by `x`: the variable is merged by the condition -/
@@ -105,16 +104,16 @@ def C01_example_body : StmtList :=
   .cons (.expr (.ite (.var "c") (.block (.cons (.assign "x" .nil (.int 1 .u8)) .nil)) (.block .nil)))
     (.cons (.expr (.var "x")) .nil)
 
-example : bitStmts (callAt ⟨[], []⟩ 0) [("c", .s .bool, [true]), ("x", .s (.int .u8), enc .u8 7)] C01_example_body =
+example : bitStmts ⟨callAt ⟨[], [], []⟩ 0, fun _ => none⟩ [("c", .s .bool, [true]), ("x", .s (.int .u8), enc .u8 7)] C01_example_body =
     some (.s (.int .u8), enc .u8 1, none, [("c", .s .bool, [true]), ("x", .s (.int .u8), enc .u8 1)]) := by rfl
 
-example : bitStmts (callAt ⟨[], []⟩ 0) [("c", .s .bool, [false]), ("x", .s (.int .u8), enc .u8 7)] C01_example_body =
+example : bitStmts ⟨callAt ⟨[], [], []⟩ 0, fun _ => none⟩ [("c", .s .bool, [false]), ("x", .s (.int .u8), enc .u8 7)] C01_example_body =
     some (.s (.int .u8), enc .u8 7, none, [("c", .s .bool, [false]), ("x", .s (.int .u8), enc .u8 7)]) := by rfl
 
 /-- a call: `fn inc(a: u8) -> u8 { a + 1u8 }` and the body `inc(x)`; with `x = 255` the callee's overflow is the
 caller's panic, and inlining to depth 0 is outside the fragment -/
 def C01_example_prog : Prog :=
-  ⟨[⟨"inc", [("a", .int .u8)], .int .u8, .cons (.expr (.bin .add (.int .u8) (.var "a") (.int 1 .u8))) .nil⟩], []⟩
+  ⟨[⟨"inc", [("a", .int .u8)], .int .u8, .cons (.expr (.bin .add (.int .u8) (.var "a") (.int 1 .u8))) .nil⟩], [], []⟩
 
 example : bitBody C01_example_prog [("x", .s (.int .u8), enc .u8 7)] (.cons (.expr (.call "inc" (.cons (.var "x") .nil))) .nil) =
     some (.s (.int .u8), enc .u8 8, none, [("x", .s (.int .u8), enc .u8 7)]) := by rfl
@@ -122,7 +121,7 @@ example : bitBody C01_example_prog [("x", .s (.int .u8), enc .u8 7)] (.cons (.ex
 example : bitBody C01_example_prog [("x", .s (.int .u8), enc .u8 255)] (.cons (.expr (.call "inc" (.cons (.var "x") .nil))) .nil) =
     some (.s (.int .u8), enc .u8 0, some .overflow, [("x", .s (.int .u8), enc .u8 255)]) := by rfl
 
-example : bitStmts (callAt C01_example_prog 0) [("x", .s (.int .u8), enc .u8 7)]
+example : bitStmts ⟨callAt C01_example_prog 0, fun _ => none⟩ [("x", .s (.int .u8), enc .u8 7)]
     (.cons (.expr (.call "inc" (.cons (.var "x") .nil))) .nil) = none := by rfl
 
 example : EnvRel [("x", .int 7)] [("x", .s (.int .u8), enc .u8 7)] :=
